@@ -856,13 +856,24 @@ func (a h264DepRes) same(b h264DepRes) bool {
 }
 
 // runH264C09 feeds payloads to ONE receiver; mirrors Pred.C09.DepObs with M = IsAVC.
-func runH264C09(c *Case, avc bool, payloads [][]byte) {
-	c.I.Bool(avc).Nat(len(payloads))
+func runH264C09(c *Case, avc bool, payloads [][]byte) { runH264C09Z(c, false, avc, payloads) }
+
+// runH264C09Z: zero = SetZeroAllocation(true), where Unmarshal hands the payload back.
+func runH264C09Z(c *Case, zero, avc bool, payloads [][]byte) {
+	if zero {
+		c.Tag("zero-allocation")
+	}
+	mk := func() *codecs.H264Packet {
+		d := &codecs.H264Packet{IsAVC: avc}
+		d.SetZeroAllocation(zero)
+		return d
+	}
+	c.I.Bool(zero).Bool(avc).Nat(len(payloads))
 	for _, p := range payloads {
 		c.I.OBytes(p)
 	}
-	dep := &codecs.H264Packet{IsAVC: avc}
-	twin := &codecs.H264Packet{IsAVC: avc}
+	dep := mk()
+	twin := mk()
 	c.O.Nat(len(payloads))
 	for _, p := range payloads {
 		buf := cloneBytes(p)
@@ -874,7 +885,7 @@ func runH264C09(c *Case, avc bool, payloads [][]byte) {
 			t1 = dep.IsPartitionTail(true, buf)
 		})
 		md := dep.IsAVC
-		fresh := &codecs.H264Packet{IsAVC: avc}
+		fresh := mk()
 		fr := h264Unmarshal(fresh, cloneBytes(p))
 		tr := h264Unmarshal(twin, cloneBytes(p))
 		// the caller reuses its buffer: everything the receiver still references changes
@@ -987,7 +998,7 @@ func genC09H264(x *Ctx) {
 				}
 			}
 			c.Tag("short-random")
-			runH264C09(c, c.R.Bool(), seq)
+			runH264C09Z(c, c.R.Chance(1, 8), c.R.Bool(), seq)
 		})
 	}
 	// (c) mutated valid payloads and codec-specific garbage
@@ -1014,7 +1025,7 @@ func genC09H264(x *Ctx) {
 				}
 			}
 			c.Tag("mutated")
-			runH264C09(c, c.R.Bool(), seq)
+			runH264C09Z(c, c.R.Chance(1, 8), c.R.Bool(), seq)
 		})
 	}
 }
